@@ -1,7 +1,7 @@
 (* C08 — the solver is equivariant under cyclic permutation of the axes.
    Model: model/Yee.v; lemmas: proofs/Yee_perm.v (layer-free, equality of functions), proofs/Yee_perm_pml.v (with CPML layers, cell by cell) *)
 From Coq Require Import List Arith.
-From FV Require Import base.Scalar base.Cplx model.Yee proofs.Yee_steps proofs.Yee_perm proofs.Yee_pml_loop proofs.Yee_perm_pml.
+From FV Require Import base.Scalar base.Cplx model.Yee model.YeeFull proofs.Yee_steps proofs.Yee_perm proofs.Yee_pml_loop proofs.Yee_perm_pml proofs.Yee_full_props proofs.Yee_full_perm.
 Import ListNotations.
 
 (* Pscene_pml relabels x -> y -> z -> x: the new x axis is the old z axis; arrays become (P f) i j k = f j k i, vector fields
@@ -23,3 +23,14 @@ Theorem C08_forward_perm_layer_free : forall (K : Fld) (sc : scene K), pmls K sc
   tstep (iterP K (Pscene K sc) n s') = tstep (iterP K sc n s).
 Proof. intros K sc Hp n. exact (forward_perm_n K sc Hp n). Qed.
 Print Assumptions C08_forward_perm_layer_free.
+
+(* fully anisotropic lossless tiers (model/YeeFull.v; either tensor 9-component, the other scalar / diagonal), layer-free scenes:
+   the relabelled tensor has entry (r, s) = relabelled entry (sg r, sg s) of the original, sg 0 = 2, sg 1 = 0, sg 2 = 1 *)
+Theorem C08_forward_full_tensor_perm : forall (K : Fld) (sc : scene K), pmls K sc = [] ->
+  forall (ie9 im9 : option (T9 K)) n s s',
+  veqA K (fE s') (PV K (fE s)) -> veqA K (fH s') (PV K (fH s)) -> tstep s' = tstep s ->
+  veqA K (fE (iterF K (PTo K ie9) (PTo K im9) (Pscene K sc) n s')) (PV K (fE (iterF K ie9 im9 sc n s))) /\
+  veqA K (fH (iterF K (PTo K ie9) (PTo K im9) (Pscene K sc) n s')) (PV K (fH (iterF K ie9 im9 sc n s))) /\
+  tstep (iterF K (PTo K ie9) (PTo K im9) (Pscene K sc) n s') = tstep (iterF K ie9 im9 sc n s).
+Proof. intros K sc Hp ie9 im9 n. exact (forward_full_perm_n K sc Hp ie9 im9 n). Qed.
+Print Assumptions C08_forward_full_tensor_perm.
